@@ -35,9 +35,11 @@ def gen_cases(chk):
         if quick and len(plans) > 28:
             rng.shuffle(plans)
             plans = plans[:28]
-        for f in plans:
+        for j, f in enumerate(plans):
             c = copy.deepcopy(base)
             c["idx"], c["fault"] = len(cases), f
+            if j % 3 == 2:
+                c["fault_flavour"] = "interrupt"      # the same fault raised as a KeyboardInterrupt (a BaseException)
             cases.append(c)
     return cases
 
@@ -48,7 +50,7 @@ def run(chk, replay=None):
     twins = {}
 
     def oracle(c, o):
-        key = json.dumps({k: c[k] for k in c if k not in ("idx", "fault")}, sort_keys=True)
+        key = json.dumps({k: c[k] for k in c if k not in ("idx", "fault", "fault_flavour")}, sort_keys=True)
         if key not in twins:
             t = copy.deepcopy(c)
             t["fault"] = None
